@@ -79,7 +79,7 @@ def editorconfig_text(props):
 class Tree:
     """A status vector made concrete."""
 
-    def __init__(self, vec, rng, bash_ok, rich=False):
+    def __init__(self, vec, rng, bash_ok, rich=False, perfile=False):
         self.intended = dict(vec)
         nrich = 0
         self.files = {}           # path -> bytes (original)
@@ -97,24 +97,36 @@ class Tree:
                 body = rng.choice(pool)
                 if rich and stt == "unf":
                     body = MESSY[nrich % 3]; nrich += 1     # the sources that exercise every printer knob
+                if perfile and stt in ("fmt", "unf"):
+                    # formatted with the DEFAULT options (a file no section applies to must be left alone,
+                    # a file whose own section sets a knob must change) / messy
+                    body = ("@dflt:" if stt == "fmt" else "") + MESSY[nrich % 3]; nrich += 1
                 if body == "@derived":
                     body = "@derived:" + rng.choice(MESSY[:4])
-                if slot == "c" and not body.startswith("@"):
+                if slot == "c" and not body.startswith("@") and not body.startswith(SHEBANG):
                     body = SHEBANG + body          # extensionless: found through its shebang
             self.files[p] = body
             self.slot_path[slot] = p
         self.shell = {s: p for s, p in self.slot_path.items() if vec[s] != "non"}
 
-    def write(self, root, ec):
+    def write(self, root, ectext):
         os.makedirs(root)
         for p, b in self.files.items():
             ap = os.path.join(root, p)
             os.makedirs(os.path.dirname(ap), exist_ok=True)
             with open(ap, "wb") as f:
                 f.write(b if isinstance(b, bytes) else b.encode())
-        if ec is not None:
+        if ectext is not None:
             with open(os.path.join(root, ".editorconfig"), "w") as f:
-                f.write(editorconfig_text(ec))
+                f.write(ectext)
+
+
+def editorconfig_sections(sections):
+    """{basename: props} -> .editorconfig with one section per file name (matches that file only)."""
+    out = ["root = true\n"]
+    for base, props in sorted(sections.items()):
+        out.append("\n[%s]\n" % base + "".join("%s = %s\n" % kv for kv in sorted(props.items())))
+    return "".join(out)
 
 
 def read_tree(root):
@@ -147,6 +159,11 @@ class Engine:
         after comparing every step with the EDGE graph (violations go to ck)."""
         name, flags, ec = fs
         flags = list(flags) if mode == "flags" else []
+        ectext = None
+        if mode == "ec" and ec is not None:
+            ectext = editorconfig_text(ec)
+        elif mode == "ecfiles":
+            ectext = editorconfig_sections(ec)
         root = os.path.join(self.work, "t%d" % next(self.ctr))
         top = os.path.join(root, "tree")
         os.makedirs(root)
@@ -156,11 +173,21 @@ class Engine:
         t2.files = dict(tree.files)
         scratch_ec = os.path.join(root, "ecdir")
         os.makedirs(scratch_ec)
-        if mode == "ec" and ec is not None:
+        if ectext is not None:
             with open(os.path.join(scratch_ec, ".editorconfig"), "w") as f:
-                f.write(editorconfig_text(ec))
+                f.write(ectext)
+        plain = os.path.join(root, "plain")
+        os.makedirs(plain)
         for p, b in list(t2.files.items()):
-            if isinstance(b, str) and b.startswith("@derived:"):
+            if isinstance(b, str) and b.startswith("@dflt:"):
+                src = b[len("@dflt:"):]
+                if p == "c":
+                    src = SHEBANG + src
+                rc, out, err = self.sh(["--filename", os.path.basename(p)], plain, src.encode())
+                if rc != 0:
+                    raise vlib.Inconclusive("content library: messy source does not parse: %r" % (err[:200],))
+                t2.files[p] = out
+            elif isinstance(b, str) and b.startswith("@derived:"):
                 src = b[len("@derived:"):]
                 if p == "c":
                     src = SHEBANG + src
@@ -170,7 +197,7 @@ class Engine:
                 t2.files[p] = out
             elif isinstance(b, str):
                 t2.files[p] = b.encode()
-        t2.write(top, ec if mode == "ec" else None)
+        t2.write(top, ectext)
         orig = dict(t2.files)
         # classification by stdin mode (independent of walking, -l, -d, -w)
         st, ref = {}, {}
@@ -191,6 +218,8 @@ class Engine:
         prefix = "" if pvariant == "p0" else "tree/"
         cwd = top if pvariant == "p0" else root
         paths = sorted(t2.shell.values())
+        if explicit == "rev":
+            paths = paths[::-1]
         args = [prefix + p for p in paths] if explicit else [prefix + "." if prefix == "" else "tree"]
         if explicit and not paths:
             args = [prefix + "." if prefix == "" else "tree"]
@@ -199,12 +228,13 @@ class Engine:
         ctx = {"flagset": name, "mode": mode, "explicit": explicit, "patch": pvariant, "tree": vec, "walk": walk}
 
         def viol(what, detail, step):
-            key = "%s [%s]" % (what, "flags" if mode == "flags" else "editorconfig")
-            if name == "kp" and "new" in step["from"]["cont"].values():
+            key = "%s [%s]" % (what, {"flags": "flags", "ec": "editorconfig", "ecfiles": "editorconfig sections per file"}[mode])
+            if (name == "kp" or name.startswith("perfile:kp@")) and "new" in step["from"]["cont"].values():
                 # ShfmtModes!Dev_KeepPaddingNotIdempotent: documented best-effort option; only after a rewrite
                 key = "Dev_KeepPaddingNotIdempotent"
             self.ck.violation(key, {"vector": {"vec": vec, "files": {p: (b if isinstance(b, str) else b.decode("latin-1")) for p, b in tree.files.items()},
-                                               "flagset": name, "mode": mode, "walk": walk, "explicit": explicit, "patch": pvariant},
+                                               "flagset": name, "mode": mode, "walk": walk, "explicit": explicit, "patch": pvariant,
+                                               "sections": ec if mode == "ecfiles" else None},
                                     "impl": detail, "spec": step, "context": ctx})
 
         def names(slots):
@@ -285,6 +315,7 @@ class Engine:
         if len(self.ck.cov["samples"]) < 5 and ref:
             self.ck.sample({"tree": vec, "files": {p: (b if isinstance(b, str) else b.decode("latin-1"))[:80] for p, b in tree.files.items()},
                             "flagset": name, "mode": mode, "walk": walk, "explicit_args": explicit, "patch": pvariant,
+                            "sections": ec if mode == "ecfiles" else None,
                             "final_state": st})
         return transcript
 
@@ -379,12 +410,27 @@ def run(ck):
         eng = Engine(ck, shfmt, edges, work)
         ntrees = 26 if ck.tier == "quick" else 160
         vecs, ninit = pick_vectors(ck, edges, ntrees)
-        budget = 70 if ck.tier == "quick" else 800
+        budget = 80 if ck.tier == "quick" else 800
         t0 = time.time()
         jobs = []
-        # first: every flag set on a tree whose unformatted files exercise every knob
+        # per-file option sets: an .editorconfig whose sections match single files of a multi-file run.
+        # What a whole-tree command does to each file must be what stdin mode (one file per process)
+        # says about that file alone: options must not leak from one file to the next.
+        slots3 = sorted(vecs[0])
+        knobs = {f[0]: f[2] for f in FLAGSETS if f[2]}
+        pf = []
+        for kn in ("s", "mn"):
+            for slt in slots3:
+                pf.append((kn, slt))
+        pf_rest = [(kn, slt) for kn in ("i2", "bn", "sr", "fn", "i4ci", "all") for slt in (slots3[0], slots3[-1])]
+        for n, (kn, slt) in enumerate(pf):
+            jobs.append((-2, n, {x: "fmt" for x in slots3}, ("perfile:%s@%s" % (kn, slt), [], {slt: knobs[kn]})))
+        # then: every flag set on a tree whose unformatted files exercise every knob
         for j, fs in enumerate(FLAGSETS):
             jobs.append((-1, j, vecs[0] if j % 2 == 0 else vecs[5], fs))
+        for n, (kn, slt) in enumerate(pf_rest):
+            jobs.append((-2, n + len(pf), {x: ("fmt" if (n + k) % 3 else "unf") for k, x in enumerate(slots3)},
+                         ("perfile:%s@%s" % (kn, slt), [], {slt: knobs[kn]})))
         for i, vec in enumerate(vecs):
             nfs = 2 if ck.tier == "quick" else 4
             fss = [FLAGSETS[(i * nfs + j + ck.rng.randrange(len(FLAGSETS))) % len(FLAGSETS)] for j in range(nfs)]
@@ -402,12 +448,27 @@ def run(ck):
                 return
             import random
             rng = random.Random(seed)
+            if i == -2:
+                tree = Tree(vec, rng, False, perfile=True)
+                secs = {os.path.basename(tree.slot_path[x]): props for x, props in fs[2].items()}
+                eng.run_walk(tree, vec, (fs[0], [], secs), "ecfiles", ["L", "D", "W", "L", "S"],
+                             [False, True, "rev"][j % 3], "p0" if j % 2 == 0 else "p1", record)
+                record["perfile"] = record.get("perfile", 0) + 1
+                return
             bash_ok = fs[0] in ("default", "i2", "i4ci", "bn", "sr", "fn", "s", "mn", "kp", "all")
             tree = Tree(vec, rng, bash_ok, rich=(i == -1))
             walk = WALKS[(i + j) % len(WALKS)]
             explicit = (i + j) % 3 == 1
             pv = "p0" if (i + j) % 2 == 0 else "p1"
             ta = eng.run_walk(tree, vec, fs, "flags", walk, explicit, pv, record)
+            if fs[2] is not None and j == 0 and i >= 0 and i % (4 if ck.tier == "quick" else 2) == 0:
+                # the same tree with the knobs of this flag set applied to ONE of its files only
+                sh = sorted(tree.shell.values())
+                if len(sh) >= 2:
+                    one = sh[rng.randrange(len(sh))]
+                    eng.run_walk(tree, vec, ("perfile:%s@%s" % (fs[0], one), [], {os.path.basename(one): fs[2]}), "ecfiles",
+                                 walk, [False, True, "rev"][i % 3], pv, record)
+                    record["perfile"] = record.get("perfile", 0) + 1
             if fs[2] is not None:
                 tb = eng.run_walk(tree, vec, fs, "ec", walk, explicit, pv, record)
                 ck.cov["evaluations"] += 1
@@ -431,6 +492,7 @@ def run(ck):
         ck.notes["edges_in_model"] = len(edges)
         ck.notes["distinct_edges_replayed"] = len(record["edges"])
         ck.notes["reclassified_trees"] = record["reclassified"]
+        ck.notes["per_file_section_walks"] = record.get("perfile", 0)
         ck.cov["rule"] = ("trees = status vectors (fmt/unf/err/non/abs per slot) from the model's initial states (fixed must-have "
                           "set + seeded sample), each with seeded concrete contents and flag sets; walk = 5 commands from a "
                           "template, Stdin expanded to every shell file, run once with flags and once with the equivalent "
@@ -453,13 +515,15 @@ def replay(ck, rec):
     record = {"edges": set(), "walks": 0, "reclassified": 0}
     try:
         eng = Engine(ck, shfmt, edges, work)
-        fs = next(f for f in FLAGSETS if f[0] == v["flagset"])
+        fs = next((f for f in FLAGSETS if f[0] == v["flagset"]), None)
         tree = Tree.__new__(Tree)
         tree.intended = v["vec"]
         tree.files = dict(v["files"])
         tree.slot_path = {s: (NON_PATH[s] if stt == "non" else SHELL_PATH[s]) for s, stt in v["vec"].items() if stt != "abs"}
         tree.shell = {s: p for s, p in tree.slot_path.items() if v["vec"][s] != "non"}
         modes = ["flags", "ec"] if v["mode"] == "both" else [v["mode"]]
+        if v["mode"] == "ecfiles":
+            fs = (v["flagset"], [], v["sections"])
         tr = [eng.run_walk(tree, v["vec"], fs, m, v["walk"], v["explicit"], v["patch"], record) for m in modes]
         if len(tr) == 2 and tr[0] != tr[1]:
             ck.violation("flags and the equivalent EditorConfig give different bytes (flag set %s)" % fs[0], {"vector": v})
